@@ -32,8 +32,13 @@ def build_ctx(e, struct_name, hv):
         key = I(T.var(f'key_{fname}', 0, (1 << 256) - 1), 'pubkey')
         data = None
         m = re.search(r'Account<\s*\'info\s*,\s*(\w+)\s*>', ty)
-        if m and m.group(1) == 'Whirlpool':
-            data = hv.value('Whirlpool', f'{fname}')
+        if m and m.group(1) in ('Whirlpool', 'Position', 'WhirlpoolsConfig', 'FeeTier', 'PositionBundle'):
+            data = hv.value(m.group(1), f'{fname}')
+        elif m and m.group(1) in ('TokenAccount', 'TokenAccountInterface'):
+            # spl token account, fields in declaration order of spl_token::state::Account (MIR addresses them by index)
+            data = S({'mint': I(T.var(f'{fname}_mint', 0, (1 << 256) - 1), 'pubkey'), 'owner': I(T.var(f'{fname}_owner', 0, (1 << 256) - 1), 'pubkey'),
+                      'amount': I(T.var(f'{fname}_amount', 0, 2**64 - 1), 'u64'), 'delegate': Opaque('delegate'), 'state': Opaque('state'),
+                      'is_native': Opaque('is_native'), 'delegated_amount': I(T.var(f'{fname}_delegated_amount', 0, 2**64 - 1), 'u64'), 'close_authority': Opaque('close_authority')})
         a = H.Acct(fname, key, data)
         accts[fname] = Boxed(a) if ty.startswith('Box<') else a
     acc_struct = S(accts)
